@@ -240,7 +240,10 @@ fn panic_signature(msg: &str) -> String {
 
 /// run one case, converting library panics into failures
 pub fn run_guarded<S: SubCheckT>(case: &S::Case, st: &mut Stats) -> CaseResult {
+    // per-case state of the walkers (label embedding) never leaks from one case into the next
+    crate::walk::set_label_map(None);
     let r = std::panic::catch_unwind(std::panic::AssertUnwindSafe(|| S::run(case, st)));
+    crate::walk::set_label_map(None);
     match r {
         Ok(r) => r,
         Err(_) => {
